@@ -269,7 +269,7 @@ def finish(pid, prop, tier, seed, t0, b, hyg, ps, cases, impl, failures, disagre
               assumptions=TRUSTED_BASE, wall_s=round(time.time() - t0, 2), violations=violations)
     infra.write_evidence(pid, ev)
     print('%s %s: %d theorems (%s), %d cases, %d oracle failures (%d known), %d disagreements, %.1fs' % (
-        pid, tier, len(ps['theorems']), 'all closed' if ps['ok'] else 'NOT OK', len(cases), len(failures),
+        pid, tier, len(ps['theorems']), 'all closed' if ps['ok'] else ('none: ' + prop.level.replace('_', ' ') if prop.level != 'proof' and not ps['theorems'] else 'NOT OK'), len(cases), len(failures),
         len(failures) - len(new_failures), len(pure_disagreements), time.time() - t0))
     return rc
 
